@@ -31,6 +31,8 @@ def canonv(v):
     if isinstance(v, list): return ['l', [canonv(x) for x in v]]
     if isinstance(v, (set, frozenset)): return ['set', sorted(json.dumps(canonv(x)) for x in v)]
     if isinstance(v, dict): return ['d', sorted(([json.dumps(canonv(k)), canonv(x)] for k, x in v.items()), key=lambda p: p[0])]
+    if type(v).__name__ == 'Dyn' and hasattr(v, '__dict__'):
+        return ['inst', 'Dyn', canonv(dict(v.__dict__))]
     if callable(v):
         try: return ['fn', getattr(v, '__name__', '?'), canonv(v(3))]
         except Exception as e: return ['fn', getattr(v, '__name__', '?'), 'EXC']
